@@ -796,6 +796,8 @@ def run_case(case, env):
                     out['probes']['pda_call_with_truncated_closure'] = 1
             knobs_before = _ambient()
             d, st, val, ticks = _run_call(env, o, args, step['params'], ctx)
+            if name == 'check_nfa_to_dfa_answer_twice' and st == 'ok' and isinstance(val, list) and len(val) == 2 and val[0] != val[1]:
+                out['viol'].append(viol('repeated-call-differs', 'check_nfa_to_dfa_answer', {'step': idx, 'first_not_ok': val[0], 'second_not_ok': val[1]}))
             if _ambient() != knobs_before:
                 out['viol'].append(viol('ambient-setting-changed', site, {'step': idx, 'before': knobs_before, 'after': _ambient()}))
                 _restore(knobs_before)
